@@ -867,8 +867,16 @@ func (u *Unit) evalSpecCall(env *SpecEnv, c *ECall) Value {
 			}
 		}
 	}
-	// a real function declared `function` (pure, deterministic): uninterpreted application
-	if fn := u.V.repoFuncByShortName(u.Pkg, name); fn != nil {
+	// a real function declared `function` (pure, deterministic): uninterpreted application;
+	// `f__1(args)` names its second result
+	resIdx := 0
+	fname := name
+	if i := strings.LastIndex(name, "__"); i > 0 {
+		if n, err := strconv.Atoi(name[i+2:]); err == nil {
+			resIdx, fname = n, name[:i]
+		}
+	}
+	if fn := u.V.repoFuncByShortName(u.Pkg, fname); fn != nil && resIdx < fn.Signature.Results().Len() {
 		if fc := u.V.contractFor(fn); fc != nil && fc.Function {
 			var args []Value
 			for i := range c.Args {
@@ -878,8 +886,8 @@ func (u *Unit) evalSpecCall(env *SpecEnv, c *ECall) Value {
 			if env.useOld {
 				st = &State{Heaps: env.heaps(), Entry: &snapshot{Heaps: env.heaps(), Alloc: env.s.Entry.Alloc}, Alloc: env.s.Alloc}
 			}
-			if ft := u.functionApp(st, fn, args, 0); ft != nil {
-				return Value{T: ft, Ty: fn.Signature.Results().At(0).Type()}
+			if ft := u.functionApp(st, fn, args, resIdx); ft != nil {
+				return Value{T: ft, Ty: fn.Signature.Results().At(resIdx).Type()}
 			}
 		}
 	}
